@@ -50,6 +50,22 @@ type splice struct {
 // preempted between the statements of Sign, Verify, batch verification etc.;
 // the arithmetic packages (curve, internal/*) stay atomic.
 func SelectFiles(repo string, wide bool) ([]string, error) {
+	return SelectFilesMode(repo, b2mode(wide))
+}
+
+func b2mode(wide bool) int {
+	if wide {
+		return 1
+	}
+	return 0
+}
+
+// SelectFilesMode: mode 0 narrow, 1 wide (primitives/**), 2 wide plus the STROBE
+// duplex (internal/strobe/strobe.go; the Keccak permutation itself stays atomic),
+// for the workload that runs concurrent users of clones of one transcript.
+func SelectFilesMode(repo string, mode int) ([]string, error) {
+	wide := mode >= 1
+	strobeFile := filepath.Join(repo, "internal", "strobe", "strobe.go")
 	var out []string
 	cacheDir := filepath.Join(repo, "primitives", "ed25519", "extra", "cache")
 	primDir := filepath.Join(repo, "primitives") + string(filepath.Separator)
@@ -67,7 +83,7 @@ func SelectFiles(repo string, wide bool) ([]string, error) {
 		if !strings.HasSuffix(p, ".go") || strings.HasSuffix(p, "_test.go") {
 			return nil
 		}
-		if filepath.Dir(p) == cacheDir || (wide && strings.HasPrefix(p, primDir)) {
+		if filepath.Dir(p) == cacheDir || (wide && strings.HasPrefix(p, primDir)) || (mode >= 2 && p == strobeFile) {
 			out = append(out, p)
 			return nil
 		}
@@ -214,7 +230,11 @@ func exprString(e ast.Expr) string {
 // Generate instruments the selected files of repo into outDir and writes
 // outDir/overlay.json and outDir/sites.json.
 func Generate(repo, outDir string, wide bool) (*Result, error) {
-	files, err := SelectFiles(repo, wide)
+	return GenerateMode(repo, outDir, b2mode(wide))
+}
+
+func GenerateMode(repo, outDir string, mode int) (*Result, error) {
+	files, err := SelectFilesMode(repo, mode)
 	if err != nil {
 		return nil, err
 	}
